@@ -30,7 +30,7 @@ META = {
             "channel.py and of the blocking Transport/AuthHandler APIs and every synchronisation operation; "
             "plus the channel calls on a channel that is already half-closed (shutdown_read / shutdown_write / "
             "shutdown(2) by this side, EOF from the peer) or after a stray OPEN_FAILURE / OPEN_CONFIRMATION from the peer "
-            "naming the established channel, x loss x timing before/after; "
+            "naming the established channel, or with stderr combining switched on (recv / recv_stderr), x loss x timing before/after; "
             "plus every API x local close while the victim's transport thread is "
             "busy inside an application callback (x11 handler on the client, check_channel_exec_request on the "
             "server; timing before [quick] / racing / after). The call must return or raise within 3 virtual seconds of the loss (or "
@@ -113,6 +113,9 @@ def make_body(scn):
                 chan.shutdown(2)
             elif pre == "peer_eof":
                 schan.shutdown_write()
+            elif pre == "combine_stderr":
+                # the application folded stderr into stdout earlier; both read calls stay legal
+                chan.set_combine_stderr(True)
             elif pre in ("stray_open_failure", "stray_open_success"):
                 # a misbehaving peer: an OPEN_FAILURE / OPEN_CONFIRMATION naming the already established channel
                 from paramiko.common import MSG_CHANNEL_OPEN_FAILURE, MSG_CHANNEL_OPEN_SUCCESS
@@ -365,7 +368,9 @@ def scenarios(tier):
         # the channel is already half-closed when the call blocks (only calls that still make sense then)
         if api in ("recv", "recv_stderr", "recv_exit_status", "send_zero_window", "sendall_zero_window"):
             for pre in ("shutdown_read", "shutdown_write", "shutdown2", "peer_eof", "stray_open_failure",
-                        "stray_open_success"):
+                        "stray_open_success", "combine_stderr"):
+                if pre == "combine_stderr" and api not in ("recv", "recv_stderr"):
+                    continue
                 if api.endswith("zero_window") and pre in ("shutdown_write", "shutdown2"):
                     continue        # sending after shutting the write side down fails at once by design
                 if api in ("recv", "recv_stderr") and pre == "peer_eof":
